@@ -50,35 +50,38 @@ theorem getElem?_append_some (I : List Inode) (x : Inode) (id : Nat) (ino : Inod
 /-! ### the states a snapshot run passes through -/
 
 /-- state during/after the writes: fresh inode `n = |inodes|` holding `d`, `s` bytes of it synced -/
-def during (fs0 : FS) (tmp : String) (d : Bytes) (s : Nat) (fd : Option Nat) (extra : List DirOp) : FS :=
+def during (fs0 : FS) (tmp : String) (d : Bytes) (s : Nat) (fd : Option (Nat × Nat)) (extra : List DirOp) : FS :=
   { inodes := fs0.inodes ++ [⟨d, s⟩], dir0 := fs0.dir0,
     log := fs0.log ++ (.link tmp fs0.inodes.length :: extra), fd := fd }
 
+theorem overwrite_end (a d : Bytes) : overwrite a a.length d = a ++ d := by
+  simp [overwrite]
+
 theorem run_writes (fs0 : FS) (tmp : String) (cs : List Bytes) (acc : Bytes) :
-    run (during fs0 tmp acc 0 (some fs0.inodes.length) []) (cs.map .write) =
-      during fs0 tmp (acc ++ cs.flatten) 0 (some fs0.inodes.length) [] := by
+    run (during fs0 tmp acc 0 (some (fs0.inodes.length, acc.length)) []) (cs.map .write) =
+      during fs0 tmp (acc ++ cs.flatten) 0 (some (fs0.inodes.length, (acc ++ cs.flatten).length)) [] := by
   induction cs generalizing acc with
   | nil => simp [run]
   | cons c cs ih =>
     simp only [List.map_cons, run, List.foldl_cons]
-    have : step (during fs0 tmp acc 0 (some fs0.inodes.length) []) (.write c) =
-        during fs0 tmp (acc ++ c) 0 (some fs0.inodes.length) [] := by
-      simp [step, during, modifyInode_last]
+    have : step (during fs0 tmp acc 0 (some (fs0.inodes.length, acc.length)) []) (.write c) =
+        during fs0 tmp (acc ++ c) 0 (some (fs0.inodes.length, (acc ++ c).length)) [] := by
+      simp [step, during, modifyInode_last, overwrite_end]
     rw [this]
     have := ih (acc ++ c)
     simp only [run] at this
     rw [this]
     simp
 
-theorem step_create (fs0 : FS) (tmp : String) (hfresh : fs0.dirNow.get tmp = none) :
-    step fs0 (.create tmp) = during fs0 tmp [] 0 (some fs0.inodes.length) [] := by
+theorem step_create (fs0 : FS) (tmp : String) (trunc : Bool) (hfresh : fs0.dirNow.get tmp = none) :
+    step fs0 (.create tmp trunc) = during fs0 tmp [] 0 (some (fs0.inodes.length, 0)) [] := by
   simp [step, hfresh, during]
 
 /-- the state after the first `i` operations of a snapshot -/
 inductive Phase (fs0 : FS) (tmp target : String) (new : Bytes) : FS → Prop where
   | start : Phase fs0 tmp target new fs0
-  | writing (d : Bytes) : Phase fs0 tmp target new (during fs0 tmp d 0 (some fs0.inodes.length) [])
-  | synced : Phase fs0 tmp target new (during fs0 tmp new new.length (some fs0.inodes.length) [])
+  | writing (d : Bytes) : Phase fs0 tmp target new (during fs0 tmp d 0 (some (fs0.inodes.length, d.length)) [])
+  | synced : Phase fs0 tmp target new (during fs0 tmp new new.length (some (fs0.inodes.length, new.length)) [])
   | closed : Phase fs0 tmp target new (during fs0 tmp new new.length none [])
   | renamed : Phase fs0 tmp target new (during fs0 tmp new new.length none [.rename tmp target])
 
@@ -93,50 +96,55 @@ theorem take_tail3 (x y z : Op) (i : Nat) :
   | 2 => simp
   | _ + 3 => simp
 
-theorem phase_of_take (fs0 : FS) (tmp target : String) (chunks : List Bytes)
+theorem phase_of_take (fs0 : FS) (tmp target : String) (trunc : Bool) (chunks : List Bytes)
     (hfresh : fs0.dirNow.get tmp = none) (i : Nat) :
-    Phase fs0 tmp target chunks.flatten (run fs0 ((snapshotOps tmp target chunks).take i)) := by
+    Phase fs0 tmp target chunks.flatten (run fs0 ((snapshotOps tmp trunc target chunks).take i)) := by
   cases i with
   | zero => simp [run]; exact .start
   | succ i =>
     simp only [snapshotOps, List.take_succ_cons]
-    have hrun : ∀ l, run fs0 (.create tmp :: l) = run (during fs0 tmp [] 0 (some fs0.inodes.length) []) l := by
-      intro l; simp [run, step_create fs0 tmp hfresh]
+    have hrun : ∀ l, run fs0 (.create tmp trunc :: l) = run (during fs0 tmp [] 0 (some (fs0.inodes.length, 0)) []) l := by
+      intro l; simp [run, step_create fs0 tmp trunc hfresh]
     rw [hrun, List.take_append]
     rw [run_append]
     have hw : (chunks.map Op.write).take i = (chunks.take i).map Op.write := by
       simp [List.map_take]
-    rw [hw, run_writes]
-    simp only [List.nil_append, List.length_map]
+    have h0 := run_writes fs0 tmp (chunks.take i) []
+    simp only [List.length_nil, List.nil_append] at h0
+    rw [hw, h0]
+    simp only [List.length_map]
     by_cases hi : i ≤ chunks.length
     · have : i - chunks.length = 0 := by omega
-      simp [this, run]
+      rw [this]
+      simp only [List.take_zero, run, List.foldl_nil]
       exact .writing _
     · have hall : chunks.take i = chunks := List.take_of_length_le (by omega)
       rw [hall]
       rcases take_tail3 Op.fsync Op.close (Op.rename tmp target) (i - chunks.length) with h | h | h | h <;> rw [h]
-      · simp [run]; exact .writing _
-      · have : run (during fs0 tmp chunks.flatten 0 (some fs0.inodes.length) []) [Op.fsync] =
-            during fs0 tmp chunks.flatten chunks.flatten.length (some fs0.inodes.length) [] := by
+      · simp only [run, List.foldl_nil]; exact .writing _
+      · have : run (during fs0 tmp chunks.flatten 0 (some (fs0.inodes.length, chunks.flatten.length)) []) [Op.fsync] =
+            during fs0 tmp chunks.flatten chunks.flatten.length (some (fs0.inodes.length, chunks.flatten.length)) [] := by
           simp [run, step, during, modifyInode_last]
         rw [this]; exact .synced
-      · have : run (during fs0 tmp chunks.flatten 0 (some fs0.inodes.length) []) [Op.fsync, Op.close] =
+      · have : run (during fs0 tmp chunks.flatten 0 (some (fs0.inodes.length, chunks.flatten.length)) []) [Op.fsync, Op.close] =
             during fs0 tmp chunks.flatten chunks.flatten.length none [] := by
           simp [run, step, during, modifyInode_last]
         rw [this]; exact .closed
-      · have : run (during fs0 tmp chunks.flatten 0 (some fs0.inodes.length) []) [Op.fsync, Op.close, Op.rename tmp target] =
+      · have : run (during fs0 tmp chunks.flatten 0 (some (fs0.inodes.length, chunks.flatten.length)) []) [Op.fsync, Op.close, Op.rename tmp target] =
             during fs0 tmp chunks.flatten chunks.flatten.length none [.rename tmp target] := by
           simp [run, step, during, modifyInode_last]
         rw [this]; exact .renamed
 
-theorem run_snapshot (fs0 : FS) (tmp target : String) (chunks : List Bytes)
+theorem run_snapshot (fs0 : FS) (tmp target : String) (trunc : Bool) (chunks : List Bytes)
     (hfresh : fs0.dirNow.get tmp = none) :
-    run fs0 (snapshotOps tmp target chunks) =
+    run fs0 (snapshotOps tmp trunc target chunks) =
       during fs0 tmp chunks.flatten chunks.flatten.length none [.rename tmp target] := by
   simp only [snapshotOps]
-  have hrun : ∀ l, run fs0 (.create tmp :: l) = run (during fs0 tmp [] 0 (some fs0.inodes.length) []) l := by
-    intro l; simp [run, step_create fs0 tmp hfresh]
-  rw [hrun, run_append, run_writes]
+  have hrun : ∀ l, run fs0 (.create tmp trunc :: l) = run (during fs0 tmp [] 0 (some (fs0.inodes.length, 0)) []) l := by
+    intro l; simp [run, step_create fs0 tmp trunc hfresh]
+  have h0 := run_writes fs0 tmp chunks []
+  simp only [List.length_nil, List.nil_append] at h0
+  rw [hrun, run_append, h0]
   simp [run, step, during, modifyInode_last]
 
 end AM.CrashFS
@@ -152,11 +160,11 @@ theorem dirNow_eq_dirAt (fs : FS) : fs.dirNow = fs.dirAt fs.log.length := by
 theorem dirAt_ge (fs : FS) (j : Nat) (h : fs.log.length ≤ j) : fs.dirAt j = fs.dirNow := by
   simp [FS.dirNow, FS.dirAt, List.take_of_length_le h]
 
-theorem dirAt_during_le (fs0 : FS) (tmp : String) (d : Bytes) (s : Nat) (fd : Option Nat) (extra : List DirOp)
+theorem dirAt_during_le (fs0 : FS) (tmp : String) (d : Bytes) (s : Nat) (fd : Option (Nat × Nat)) (extra : List DirOp)
     (j : Nat) (h : j ≤ fs0.log.length) : (during fs0 tmp d s fd extra).dirAt j = fs0.dirAt j := by
   simp [FS.dirAt, during, List.take_append, show j - fs0.log.length = 0 by omega]
 
-theorem dirAt_during_gt (fs0 : FS) (tmp : String) (d : Bytes) (s : Nat) (fd : Option Nat) (extra : List DirOp)
+theorem dirAt_during_gt (fs0 : FS) (tmp : String) (d : Bytes) (s : Nat) (fd : Option (Nat × Nat)) (extra : List DirOp)
     (j : Nat) (h : fs0.log.length < j) :
     (during fs0 tmp d s fd extra).dirAt j =
       (extra.take (j - fs0.log.length - 1)).foldl applyDirOp (fs0.dirNow.put tmp fs0.inodes.length) := by
@@ -167,7 +175,7 @@ theorem dirAt_during_gt (fs0 : FS) (tmp : String) (d : Bytes) (s : Nat) (fd : Op
 
 /-- the target as seen through any directory version of a state of the run,
     before the rename is logged: the same as through some version of the start state -/
-theorem get_target_during (fs0 : FS) (tmp target : String) (d : Bytes) (s : Nat) (fd : Option Nat)
+theorem get_target_during (fs0 : FS) (tmp target : String) (d : Bytes) (s : Nat) (fd : Option (Nat × Nat))
     (hne : tmp ≠ target) (j : Nat) :
     ∃ j', ((during fs0 tmp d s fd []).dirAt j).get target = (fs0.dirAt j').get target := by
   by_cases h : j ≤ fs0.log.length
@@ -176,7 +184,7 @@ theorem get_target_during (fs0 : FS) (tmp target : String) (d : Bytes) (s : Nat)
     rw [dirAt_during_gt _ _ _ _ _ _ _ (by omega)]
     simp [Dir.get_put, hne, dirNow_eq_dirAt]
 
-theorem get_target_renamed (fs0 : FS) (tmp target : String) (d : Bytes) (s : Nat) (fd : Option Nat)
+theorem get_target_renamed (fs0 : FS) (tmp target : String) (d : Bytes) (s : Nat) (fd : Option (Nat × Nat))
     (hne : tmp ≠ target) (j : Nat) :
     (∃ j', ((during fs0 tmp d s fd [.rename tmp target]).dirAt j).get target = (fs0.dirAt j').get target) ∨
     (fs0.log.length + 2 ≤ j ∧
